@@ -32,6 +32,7 @@ import (
 	"go/types"
 	"os"
 	"path/filepath"
+	"regexp"
 	"sort"
 	"strings"
 
@@ -1128,11 +1129,6 @@ func expandWhole(fset *token.FileSet, s *inlSite, hd *ast.FuncDecl, hfile *ast.F
 		return types.TypeString(t, qual)
 	}
 	// receiver and arguments
-	type bindT struct {
-		name, arg string
-		typ       func() string // spelled only where needed: a shadowed type name makes it unspellable
-		conv      bool
-	}
 	var binds []bindT
 	if recv := sig.Recv(); recv != nil {
 		sel, ok := ast.Unparen(s.call.Fun).(*ast.SelectorExpr)
@@ -1205,6 +1201,13 @@ func expandWhole(fset *token.FileSet, s *inlSite, hd *ast.FuncDecl, hfile *ast.F
 		return "", fail
 	}
 	body := string(hsrc[htf.Offset(hd.Body.Lbrace)+1 : htf.Offset(hd.Body.Rbrace)])
+	if s.kind == "literal" {
+		// a parameter that is bound to `&x` (x a variable of the caller) and only
+		// ever dereferenced is the caller's x itself: `defer h(f, &err)` with
+		// `*errp = e` inside is the closure `defer func(){ err = e }()` — the
+		// form every rule about deferred functions and named results reads
+		body, binds = captureAddressed(body, binds, hd, s, info, htf)
+	}
 	var b strings.Builder
 	switch s.kind {
 	case "literal":
@@ -1269,4 +1272,100 @@ func expandWhole(fset *token.FileSet, s *inlSite, hd *ast.FuncDecl, hfile *ast.F
 		b.WriteString(lineDir(hd.Body.Lbrace+1) + body + "\n}" + lineDir(s.stmt.End()))
 	}
 	return b.String(), ""
+}
+
+// bindT: one parameter (or the receiver) of an expanded helper with the
+// argument text it is bound to at the call.
+type bindT struct {
+	name, arg string
+	typ       func() string // spelled only where needed: a shadowed type name makes it unspellable
+	conv      bool
+}
+
+var addrOfIdent = regexp.MustCompile(`^&[A-Za-z_][A-Za-z0-9_]*$`)
+
+// captureAddressed rewrites, in the body text of helper hd, every `*p` of a
+// parameter p bound to `&x` into `x` and drops the binding, when that is
+// exactly what the call means: p is used only dereferenced, x is a variable
+// in scope at the call and no declaration inside the helper shadows the name.
+func captureAddressed(body string, binds []bindT, hd *ast.FuncDecl, s *inlSite, info *types.Info, htf *token.File) (string, []bindT) {
+	type edit struct {
+		from, to int
+		text     string
+	}
+	base := htf.Offset(hd.Body.Lbrace) + 1
+	var edits []edit
+	var keep []bindT
+	var hinfo *types.Info
+	if s.callee.Pkg() == s.pkg.Types {
+		hinfo = info // the helper is declared in the caller's package
+	}
+	for _, bd := range binds {
+		if !addrOfIdent.MatchString(bd.arg) || bd.name == "" || bd.name == "_" || hinfo == nil {
+			keep = append(keep, bd)
+			continue
+		}
+		x := bd.arg[1:]
+		// the parameter object
+		var pobj types.Object
+		for _, f := range hd.Type.Params.List {
+			for _, nm := range f.Names {
+				if nm.Name == bd.name {
+					pobj = hinfo.Defs[nm]
+				}
+			}
+		}
+		if pobj == nil {
+			keep = append(keep, bd)
+			continue
+		}
+		ok := true
+		var stars []*ast.StarExpr
+		derefd := map[*ast.Ident]bool{}
+		ast.Inspect(hd.Body, func(n ast.Node) bool {
+			switch v := n.(type) {
+			case *ast.StarExpr:
+				if id, isId := ast.Unparen(v.X).(*ast.Ident); isId && hinfo.Uses[id] == pobj {
+					stars = append(stars, v)
+					derefd[id] = true
+				}
+			case *ast.Ident:
+				if hinfo.Defs[v] != nil && v.Name == x {
+					ok = false // a local of the helper would capture the name
+				}
+			case *ast.FuncLit:
+				// nested literals are fine: they see the same variable
+			}
+			return true
+		})
+		ast.Inspect(hd.Body, func(n ast.Node) bool {
+			if id, isId := n.(*ast.Ident); isId && hinfo.Uses[id] == pobj && !derefd[id] {
+				ok = false // the pointer itself is used
+			}
+			return true
+		})
+		for _, other := range binds {
+			if other.name == x && other.arg != bd.arg {
+				ok = false // another parameter carries the name
+			}
+		}
+		if !ok || len(stars) == 0 {
+			keep = append(keep, bd)
+			continue
+		}
+		for _, st := range stars {
+			edits = append(edits, edit{htf.Offset(st.Pos()) - base, htf.Offset(st.End()) - base, x})
+		}
+	}
+	if len(edits) == 0 {
+		return body, binds
+	}
+	sort.Slice(edits, func(i, j int) bool { return edits[i].from > edits[j].from })
+	for _, e := range edits {
+		if e.from < 0 || e.to > len(body) || e.from > e.to {
+			return body, binds
+		}
+		body = body[:e.from] + e.text + body[e.to:]
+	}
+	return body, keep
 }
